@@ -2,17 +2,26 @@
 
 A *scenario* is a table of generated process classes and callback bodies plus the classes instantiated at top level:
 
-    scn = {'classes': [[step, ...], ...], 'cbs': [code, ...], 'top': [class index, ...], 'ext': [[pid, cb], ...], 'kills': [pid, ...]}
+    scn = {'classes': [[step, ...], ...], 'cbs': [code, ...], 'top': [class index, ...], 'ext': [[pid, cb], ...], 'kills': [pid, ...],
+           'cancels': [tid, ...]}
     kills = [pid, ...]: processes that the harness may kill() (instead of resuming them) while they are parked in WAITING
+    cancels = [tid, ...]: tasks that the harness may `task.cancel()` (once per entry) between two callbacks, at a moment of its
+           choice, while the task is suspended at an await point (a bare yield, the future of a WAITING process) or has not started;
+           the CancelledError is thrown into the coroutine when the task runs next
     ext  = callbacks that code outside any task (here: the harness, between two callbacks, at a moment of its choice)
            schedules on a top-level process with `proc.call_soon(cb)` — what an RPC handler does
-    step = {'code': [act, ...], 'end': 'next' | 'wait' | 'finish' | 'raise'}      (the last step ends with finish/raise)
+    step = {'code': [act, ...], 'end': 'next' | 'wait' | 'finish' | 'raise' | 'base'}   (the last step ends with finish/raise/base;
+           'raise' raises an Exception, 'base' a BaseException that is not an Exception)
     act  = 'o' sample | 'a' await (bare yield) | 'u' self.out(..) | 'c<k>' self.call_soon(cb k)
          | 'l<k>' self.launch(class k) | 'x<k>' Class_k(...).execute()  (re-entrant, nest_asyncio)
+         | 'i<k>' child = Class_k(...); `try: await child.step_until_terminated()` in THIS task (the child's steps run in the
+           awaiting task and context) `except (BaseBoom, CancelledError):` sample 'absorbed'; then sample 'iret' and carry on
 
 A *schedule* is a list of integers: at every decision of the event loop (outermost or nested inside an `execute()`), the
 harness lists the enabled operations (`tick <tid>` for every ready task in task-id order, then `resume <tid>` for every process
-parked in WAITING, then `kill <tid>` for the parked processes listed in `kills`, then `ext <pid> <cb>` for every external call_soon not issued yet) and takes entry `choice % len(enabled)`.
+parked in WAITING, then `kill <tid>` for the parked processes listed in `kills`, then `ext <pid> <cb>` for every external call_soon not
+issued yet, then `cancel <tid>` for every entry of `cancels` not issued yet whose task exists, is not done and is not inside a nested
+`execute()`) and takes entry `choice % len(enabled)`.
 
 Every code point records (owner pid, kind, Process.current(), PROCESS_STACK); the harness records Process.current() itself at
 every decision (kind `loop`).
@@ -29,11 +38,21 @@ LIFECYCLE_HOOKS = ['on_create', 'on_entering', 'on_entered', 'on_exiting', 'on_r
                    'on_kill', 'on_killed', 'on_terminated', 'on_close']
 OUTPUT_HOOKS = ['on_output_emitting', 'on_output_emitted']
 # kinds of code points that the property puts inside the scope of their process (everything but lifecycle hooks)
-INSCOPE_KINDS = ['seg', 'aw', 'o', 'cbseg', 'cbaw', 'lret', 'xret', 'csret', 'uret'] + ['h.' + h for h in OUTPUT_HOOKS]
+INSCOPE_KINDS = (['seg', 'aw', 'o', 'cbseg', 'cbaw', 'lret', 'xret', 'csret', 'uret', 'iret', 'absorbed']
+                 + ['h.' + h for h in OUTPUT_HOOKS])
 
 
 class Boom(Exception):
     """the exception raised by a generated step that ends with 'raise'"""
+
+
+class BaseBoom(BaseException):
+    """raised by a generated step that ends with 'base': not an Exception, so neither Running.execute nor step() catch it"""
+
+
+# what the `except BaseException` of generated user code absorbs: everything the scenarios can raise through a step.  (Not
+# literally BaseException: the harness' own control-flow exceptions below must still reach the top level.)
+ABSORBED = (BaseBoom, asyncio.CancelledError)
 
 
 class Deadlock(BaseException):
@@ -88,6 +107,7 @@ class CtlLoop(_NestBase):
         super().__init__()
         self._decide = decide
         self._n_tasks = 0
+        self._tasks = []         # index = tid
         self._pool = []
         self.set_task_factory(self._factory)
 
@@ -95,6 +115,7 @@ class CtlLoop(_NestBase):
         t = asyncio.tasks._PyTask(coro, loop=loop, **kw)
         t._verif_tid = self._n_tasks
         self._n_tasks += 1
+        self._tasks.append(t)
         return t
 
     @staticmethod
@@ -161,6 +182,13 @@ class Run:
         self.kills = set(scn.get('kills', []))
         self.killed = []
         self.pending_ext = [tuple(e) for e in scn.get('ext', [])]
+        self.pending_cancel = list(scn.get('cancels', []))
+        self.nest_tids = []      # tids of the tasks whose code is inside `other.execute()`
+        self.chain = {}          # tid -> pids whose step_until_terminated() is active in that task, innermost last
+        self.interrupted = {}    # pid -> state value it was left in when a cancellation hit its step
+        self.absorbed = []       # class names of what the `except` clauses of inline awaits absorbed
+        self.max_inline = 0      # deepest chain of inline awaits in one task
+        self.inline_depth = {}
         self.classes = [make_class(self, k) for k in range(len(scn['classes']))]
         self.loop = CtlLoop(self.decide)
 
@@ -183,12 +211,31 @@ class Run:
         return p
 
     # -- scheduling
+    def parked_pid_of(self):
+        """tid -> the process parked in that task (a task steps several processes when children are awaited inline)"""
+        out = {}
+        for p in self.procs:
+            if p is not None and p.state == plumpy.ProcessState.WAITING and p._verif_pid not in self.resumed:
+                out[self.stepper_of[p._verif_pid]] = p._verif_pid
+        return out
+
     def parked(self):
         out = []
         for p in self.procs:
             if p is not None and p.state == plumpy.ProcessState.WAITING and p._verif_pid not in self.resumed:
                 out.append(self.stepper_of[p._verif_pid])
         return sorted(out)
+
+    def cancellable(self):
+        out = []
+        for t in self.pending_cancel:
+            if t < len(self.loop._tasks) and not self.loop._tasks[t].done() and t not in self.nest_tids and t not in out:
+                out.append(t)
+        return out
+
+    def set_stepper(self, pid, tid):
+        self.stepper_of[pid] = tid
+        self.chain.setdefault(tid, []).append(pid)
 
     def ready_tids(self):
         return sorted({t for t in (CtlLoop.tid_of(h) for h in self.loop.live_handles()) if t is not None})
@@ -218,9 +265,10 @@ class Run:
         while True:
             self.close_chunk()
             ready, parked = self.chunks[-1]['ready'], self.chunks[-1]['parked']
-            pid_of = {tt: p for p, tt in self.stepper_of.items()}
+            pid_of = self.parked_pid_of()
             options = ([('tick', t) for t in ready] + [('resume', t) for t in parked]
-                       + [('kill', t) for t in parked if pid_of[t] in self.kills] + [('ext', e) for e in self.pending_ext])
+                       + [('kill', t) for t in parked if pid_of[t] in self.kills] + [('ext', e) for e in self.pending_ext]
+                       + [('cancel', t) for t in self.cancellable()])
             if not options:
                 raise Deadlock()
             if self.pos >= MAX_DECISIONS:
@@ -252,6 +300,16 @@ class Run:
                 self.killed.append(pid_of[t])
                 self.procs[pid_of[t]].kill()
                 continue
+            if kind == 'cancel':
+                self.pending_cancel.remove(t)
+                ch = self.chain.get(t) or []
+                if ch:   # the process whose step is suspended in that task: it is left in the state it is in
+                    self.interrupted[ch[-1]] = self.procs[ch[-1]].state.value
+                for p, tt in self.stepper_of.items():
+                    if tt == t and self.procs[p] is not None and self.procs[p].state == plumpy.ProcessState.WAITING:
+                        self.resumed.add(p)   # its waiting future is cancelled: neither resumable nor killable any more
+                loop._tasks[t].cancel()
+                continue
             for h in loop.live_handles():
                 if CtlLoop.tid_of(h) == t:
                     return h
@@ -272,7 +330,7 @@ class Run:
             for k in self.scn['top']:
                 p = self.instantiate(k, None)
                 task = loop.create_task(p.step_until_terminated())
-                self.stepper_of[p._verif_pid] = task._verif_tid
+                self.set_stepper(p._verif_pid, task._verif_tid)
             asyncio.events._set_running_loop(loop)
             try:
                 while loop.live_handles() or self.parked() or self.pending_ext:
@@ -358,15 +416,17 @@ def make_class(run, k):
                 return plumpy.Wait(getattr(self, f'step{i + 1}'))
             if end == 'raise':
                 raise Boom()
+            if end == 'base':
+                raise BaseBoom()
             return None
 
-        if 'a' in code:
+        if needs_async(code):
             async def step(self):
-                await interp_async(run, self, code, 'seg', 'aw', self._verif_scope)
+                await interp_async(run, self, code, 'seg', 'aw', self._verif_scope, run.stepper_of[self._verif_pid])
                 return ending(self)
         else:
             def step(self):
-                interp_sync(run, self, code, 'seg', self._verif_scope)
+                interp_sync(run, self, code, 'seg', self._verif_scope, run.stepper_of[self._verif_pid])
                 return ending(self)
         step.__name__ = 'run' if i == 0 else f'step{i}'
         return step
@@ -377,20 +437,26 @@ def make_class(run, k):
     return Gen
 
 
+def needs_async(code):
+    return any(a == 'a' or a[0] == 'i' for a in code)
+
+
 def make_cb(run, proc, j):
+    """to be passed to `proc.call_soon` at once: the task that call_soon creates is the next one"""
     code = run.scn['cbs'][j]
     base = read_stack()   # the context the callback's task inherits
     expect = None if base is None else base + [proc._verif_pid]
-    if 'a' in code:
+    tid = run.loop._n_tasks
+    if needs_async(code):
         async def cb():
-            await interp_async(run, proc, code, 'cbseg', 'cbaw', expect)
+            await interp_async(run, proc, code, 'cbseg', 'cbaw', expect, tid)
     else:
         def cb():
-            interp_sync(run, proc, code, 'cbseg', expect)
+            interp_sync(run, proc, code, 'cbseg', expect, tid)
     return cb
 
 
-def do_act(run, proc, act, expect):
+def do_act(run, proc, act, expect, tid):
     if act == 'o':
         run.rec(proc, 'o', expect)
     elif act == 'u':
@@ -402,38 +468,54 @@ def do_act(run, proc, act, expect):
         run.rec(proc, 'csret', expect)
     elif act[0] == 'l':
         child = run.instantiate(int(act[1:]), proc._verif_pid, launch_from=proc)
-        run.stepper_of[child._verif_pid] = run.loop._n_tasks - 1
+        run.set_stepper(child._verif_pid, run.loop._n_tasks - 1)
         run.rec(proc, 'lret', expect)
     elif act[0] == 'x':
         other = run.instantiate(int(act[1:]), proc._verif_pid)
-        run.stepper_of[other._verif_pid] = run.loop._n_tasks  # the task execute() is about to create
+        run.set_stepper(other._verif_pid, run.loop._n_tasks)  # the task execute() is about to create
         run.nest.append(proc._verif_pid)
+        run.nest_tids.append(tid)
         run.max_nest = max(run.max_nest, len(run.nest))
         try:
             other.execute()
-        except (Boom, plumpy.KilledError):
+        except (Boom, plumpy.KilledError) + ABSORBED:   # the outcome of the nested task (its BaseException, its cancellation)
             pass
         finally:
             run.nest.pop()
+            run.nest_tids.pop()
         run.rec(proc, 'xret', expect)
     else:
         raise ValueError(act)
 
 
-def interp_sync(run, proc, code, k0, expect):
+def interp_sync(run, proc, code, k0, expect, tid):
     run.rec(proc, k0, expect)
     for act in code:
-        do_act(run, proc, act, expect)
+        do_act(run, proc, act, expect, tid)
 
 
-async def interp_async(run, proc, code, k0, k1, expect):
+async def interp_async(run, proc, code, k0, k1, expect, tid):
     run.rec(proc, k0, expect)
     for act in code:
         if act == 'a':
             await asyncio.sleep(0)
             run.rec(proc, k1, expect)
+        elif act[0] == 'i':
+            child = run.instantiate(int(act[1:]), proc._verif_pid)
+            run.set_stepper(child._verif_pid, tid)
+            run.inline_depth[tid] = run.inline_depth.get(tid, 0) + 1
+            run.max_inline = max(run.max_inline, run.inline_depth[tid])
+            try:
+                await child.step_until_terminated()     # inline: the child's steps run in THIS task and context
+            except ABSORBED as e:
+                run.absorbed.append(type(e).__name__)
+                run.rec(proc, 'absorbed', expect)
+            finally:
+                run.chain[tid].pop()
+                run.inline_depth[tid] -= 1
+            run.rec(proc, 'iret', expect)
         else:
-            do_act(run, proc, act, expect)
+            do_act(run, proc, act, expect, tid)
 
 
 def run_impl(scn, schedule, seed=None, stop_at_end=False):
@@ -453,4 +535,5 @@ def run_impl(scn, schedule, seed=None, stop_at_end=False):
     except BaseException as e:  # noqa
         err = f'{type(e).__name__}:{e}'[:200]
     return dict(chunks=r.chunks, finals=r.finals, taken=r.taken, creator=r.creator, error=err, max_nest=r.max_nest,
-                n_procs=len(r.procs), n_tasks=r.loop._n_tasks, class_of=r.class_of, killed=r.killed)
+                n_procs=len(r.procs), n_tasks=r.loop._n_tasks, class_of=r.class_of, killed=r.killed,
+                interrupted=r.interrupted, absorbed=r.absorbed, max_inline=r.max_inline)
